@@ -5,6 +5,7 @@ package main
 
 import (
 	"fmt"
+	"go/ast"
 	"go/token"
 	"go/types"
 	"strings"
@@ -157,6 +158,52 @@ func (p *Program) tableWrites(fn *ssa.Function, f *types.Var) []tableWrite {
 	return out
 }
 
+// tableWritesX: the direct table writes of fn plus, for calls of other methods of the stream that perform a write of one
+// kind on EVERY path (a "removeLocked" helper), that write attributed to the call node (must-summary).
+func (p *Program) tableWritesX(es *esRoles, fn *ssa.Function, f *types.Var) []tableWrite {
+	out := p.tableWrites(fn, f)
+	g := p.ig(fn)
+	for i, in := range g.Nodes {
+		c, ok := in.(*ssa.Call)
+		if !ok {
+			continue
+		}
+		h := c.Call.StaticCallee()
+		if h == nil || h == fn || h.Signature.Recv() == nil || namedOf(h.Signature.Recv().Type()) != es.T || len(h.Blocks) == 0 {
+			continue
+		}
+		hw := p.tableWrites(h, f)
+		hg := p.ig(h)
+		for _, kind := range []string{"insert-inner", "delete-inner", "delete-outer"} {
+			via := map[int]bool{}
+			for _, w := range hw {
+				if w.kind == kind {
+					via[w.node] = true
+				}
+			}
+			if len(via) > 0 && !anyIn(hg.Reach(hg.entry(), via, nil), hg.Exits) {
+				out = append(out, tableWrite{i, kind, in})
+			}
+		}
+	}
+	return out
+}
+
+// internalHelper: fn is called by other methods of the stream only (its index mutations are matched at those call sites).
+func (p *Program) internalHelper(es *esRoles, fn *ssa.Function) bool {
+	node := p.CG.Nodes[fn]
+	if node == nil || len(node.In) == 0 || ast.IsExported(fn.Name()) {
+		return false
+	}
+	for _, e := range node.In {
+		cf := e.Caller.Func
+		if cf.Signature.Recv() == nil || namedOf(cf.Signature.Recv().Type()) != es.T {
+			return false
+		}
+	}
+	return true
+}
+
 func c19Indexes(p *Program, r *Report) {
 	es := c19Roles(p, r)
 	if es == nil {
@@ -168,8 +215,15 @@ func c19Indexes(p *Program, r *Report) {
 			continue
 		}
 		g := p.ig(fn)
-		a := p.tableWrites(fn, es.ByType)
-		b := p.tableWrites(fn, es.ByPath)
+		a := p.tableWritesX(es, fn, es.ByType)
+		b := p.tableWritesX(es, fn, es.ByPath)
+		if p.internalHelper(es, fn) {
+			n += len(a) + len(b)
+			if len(a)+len(b) > 0 {
+				r.Lookup(fmt.Sprintf("index mutations of helper %s", fnName(fn)), fn.Pos(), "called by methods of the stream only: its mutations are attributed to and matched at the call sites")
+			}
+			continue
+		}
 		check := func(xs, ys []tableWrite, xname, yname string) {
 			for _, x := range xs {
 				var match map[int]bool
@@ -476,7 +530,7 @@ func c19BeforeReported(p *Program, r *Report) {
 	if lc == nil {
 		return
 	}
-	g := p.ig(lc.Cleanup)
+	g := p.igx(lc.Cleanup)
 	unsub, _ := p.eventNodes(g, func(in ssa.Instruction) bool {
 		c := callOf(in)
 		return c != nil && c.IsInvoke() && c.Method.Name() == "UnsubscribeAll"
@@ -494,7 +548,11 @@ func c19BeforeReported(p *Program, r *Report) {
 		}
 		return false
 	})
-	for _, ts := range p.tellSites(lc.Cleanup) {
+	var cleanupTells []tellSite
+	for _, f := range g.Fns {
+		cleanupTells = append(cleanupTells, p.tellSites(f)...)
+	}
+	for _, ts := range cleanupTells {
 		observable[g.Idx[ts.In]] = true
 	}
 	if len(unsub) == 0 || len(observable) == 0 {
